@@ -163,13 +163,21 @@ def m3(proj, rep):
             rep.violation('M3', f'{f.qual}[draw]', f'`{t(draw.value)}` does not draw the outcome from `prob`', m, draw)
         # (d) collapse
         n += 1
-        col = next((s for s in ast.walk(f.node) if isinstance(s, ast.Assign) and isinstance(s.targets[0], ast.Subscript) and isinstance(s.value, ast.BinOp)
-                    and isinstance(s.value.op, ast.Div)), None)
+        def _as_div(v):
+            # a / b, a * (1 / b), (1 / b) * a  ->  BinOp(a, Div, b)
+            if isinstance(v, ast.BinOp) and isinstance(v.op, ast.Div):
+                return v
+            if isinstance(v, ast.BinOp) and isinstance(v.op, ast.Mult):
+                for a, b in ((v.left, v.right), (v.right, v.left)):
+                    if isinstance(b, ast.BinOp) and isinstance(b.op, ast.Div) and isinstance(b.left, ast.Constant) and b.left.value == 1:
+                        return ast.BinOp(left=a, op=ast.Div(), right=b.right)
+            return None
+        col = next((s for s in ast.walk(f.node) if isinstance(s, ast.Assign) and isinstance(s.targets[0], ast.Subscript) and _as_div(s.value) is not None), None)
         if col is None:
             rep.undecided('M3', f'{f.qual}[collapse]', 'collapse assignment not found', m, f.node, text='collapse')
             n -= 1
         else:
-            lhs_idx, rhs = t(col.targets[0].slice), col.value
+            lhs_idx, rhs = t(col.targets[0].slice), _as_div(col.value)
             rhs_l, rhs_r = t(rhs.left), t(rhs.right)
             buf = col.targets[0].value.id if isinstance(col.targets[0].value, ast.Name) else None
             bdef = next((s for s in f.node.body if isinstance(s, ast.Assign) and isinstance(s.targets[0], ast.Name) and s.targets[0].id == buf), None)
@@ -209,7 +217,8 @@ def m3(proj, rep):
             n -= 1
     # (f) every exit hands out the collapsed buffer, never the input itself
     col = next((s for s in ast.walk(f.node) if isinstance(s, ast.Assign) and isinstance(s.targets[0], ast.Subscript) and isinstance(s.value, ast.BinOp)
-                and isinstance(s.value.op, ast.Div)), None)
+                and (isinstance(s.value.op, ast.Div) or (isinstance(s.value.op, ast.Mult) and any(
+                    isinstance(b, ast.BinOp) and isinstance(b.op, ast.Div) and isinstance(b.left, ast.Constant) and b.left.value == 1 for b in (s.value.left, s.value.right))))), None)
     buf = col.targets[0].value.id if col is not None and isinstance(col.targets[0].value, ast.Name) else None
     first_param = f.all_params[0]
     for r in [x for x in ast.walk(f.node) if isinstance(x, ast.Return) and isinstance(x.value, ast.Tuple) and len(x.value.elts) >= 3]:
